@@ -25,7 +25,7 @@ ASSUMPTIONS = ["the reference evaluator implements the evaluation rules listed a
                "programs whose output formatting leaves the modelled subset (non-integers beyond 6 digits, |x| >= 1e15, "
                "-0, structs inside strings) are discarded, not judged"]
 NSHARDS = 16
-NEEDS_THOROUGH = ["miri"]
+NEEDS_THOROUGH = ["miri", "fast"]
 MIRI_PROGRAMS_PER_SHARD = 3
 
 
@@ -33,6 +33,9 @@ def shards(tier, seed):
     n = 3200 if tier == "quick" else 64000
     out = [{"kind": "native", "idx": i, "n": NSHARDS, "seed": seed, "count": n // NSHARDS} for i in range(NSHARDS)]
     if tier == "thorough":
+        # the same monitor over the plain release build (what users run: no overflow checks, no debug assertions)
+        out += [{"kind": "native", "profile": "fast", "idx": 100 + i, "n": NSHARDS, "seed": seed, "count": n // NSHARDS // 4}
+                for i in range(NSHARDS)]
         # supplementary: the same generator, a few programs per process under Miri (UB / invalid enum values in the
         # opcode decode, struct field swap_remove, Arc handling); the mini prelude stands in for the real one
         out += [{"kind": "miri", "idx": i, "seed": seed, "count": MIRI_PROGRAMS_PER_SHARD} for i in range(NSHARDS)]
@@ -269,10 +272,12 @@ def run_miri(sh, spec):
 def run_shard(sh, spec):
     if spec.get("kind") == "miri":
         return run_miri(sh, spec)
-    w = get_worker()
+    w = get_worker(profile=spec.get("profile", "checked"))
+    sh.count_in("programs_by_build_profile", spec.get("profile", "checked"), 0)
     base = make_base(w)
     rng = rng_for(spec["seed"], "C09", spec["idx"])
     for k in range(spec["count"]):
+        sh.count_in("programs_by_build_profile", spec.get("profile", "checked"))
         try:
             run_program(sh, w, base, rng, f"{spec['idx']}_{k}", k)
         except (WorkerDied, WorkerTimeout) as e:
